@@ -140,6 +140,39 @@ pub fn replay() {
             }
         }
     }
+    // systematic stratum: word spellings of every multi-character base phone - tie bar / `^`, a `^` written where the tie is implicit (clicks),
+    // and every input alias of its letters, alone and together: a word and its documented respelling have the same outcome (Ok and equal, or the same error kind)
+    {
+        let is_click = |c: char| "ʘǀǁǃ‼ǂ".contains(c);
+        let is_base = |c: char| !('\u{0300}'..='\u{036f}').contains(&c) && c != '\u{0361}' && c != '\u{035c}';
+        for (g, _) in t.cards.iter() {
+            let chars: Vec<char> = g.chars().collect();
+            if chars.len() < 2 { continue; }
+            let mut bases: Vec<String> = vec![g.clone()];
+            if g.contains('\u{0361}') { bases.push(g.replace('\u{0361}', "^")); }
+            if chars.iter().any(|c| is_click(*c)) {
+                // `^` before each later base letter, one position at a time
+                for i in 1..chars.len() { if is_base(chars[i]) { let mut b: String = chars[..i].iter().collect(); b.push('^'); b.extend(chars[i..].iter()); bases.push(b); } }
+            }
+            for (bi, b) in bases.iter().enumerate() {
+                let w0 = format!("a{b}a");
+                let canon = outcome("a > e", &w0, &[], &[]);
+                if bi == 1 && g.contains('\u{0361}') {
+                    sum.vectors += 1; sum.nontrivial += 1; sum.count("word_spelling_sweep", 1);
+                    let c0 = outcome("a > e", &format!("a{g}a"), &[], &[]);
+                    if c0 == canon { sum.agree += 1; } else { sum.mismatch(json!({"kind": "word spelling", "word": format!("a{g}a"), "respelled_word": w0, "result": c0, "result_word": canon})); }
+                }
+                let applicable: Vec<&(String, String)> = lex.aliases.iter().filter(|(ipa, _)| b.contains(ipa.as_str())).collect();
+                let mut variants: Vec<String> = applicable.iter().map(|(ipa, al)| w0.replace(ipa.as_str(), al)).collect();
+                if applicable.len() > 1 { let mut all = w0.clone(); for (ipa, al) in &applicable { all = all.replace(ipa.as_str(), al); } variants.push(all); }
+                for w1 in variants {
+                    sum.vectors += 1; sum.nontrivial += 1; sum.count("word_spelling_sweep", 1);
+                    let o = outcome("a > e", &w1, &[], &[]);
+                    if o == canon { sum.agree += 1; } else { sum.mismatch(json!({"kind": "word spelling", "word": w0, "respelled_word": w1, "result": canon, "result_word": o})); }
+                }
+            }
+        }
+    }
     replay_stdin(|vec| {
         let kind = vec["kind"].as_str().unwrap();
         if kind == "feat" {
